@@ -89,13 +89,6 @@ theorem index_agrees_partial (c : Cfg) (steps : List Step) (m : M) (h : IndexAgr
       | delete now => exact sweepDelete_ia c now m.pending m.shard h
     · intro st' hst; exact hk st' (List.mem_cons_of_mem _ hst)
 
-private theorem not_ia (s : Shard) (k : Key) (t : Nat) (h1 : lookup s.expiring k = some t)
-    (h2 : (lookup s.data k).bind (·.deadline) ≠ some t) : ¬ IndexAgrees s := by
-  intro h
-  obtain ⟨e, he, hd⟩ := h k t h1
-  rw [he] at h2
-  exact h2 hd
-
 /-- `SET k v EX ..; SET k v2`: `set_value` without a TTL leaves the index entry of the old value (engine.rs:270). -/
 theorem index_agrees_fails_set_over_ttl :
     ∃ s, IndexAgrees s ∧ ¬ IndexAgrees (step Cfg.pinned (.setValue kA .str 2 none) 10 s).1 := by
@@ -322,7 +315,7 @@ def knownLate : List String :=
    "hmget", "hset", "hvals", "incr", "incr_by", "key_type", "keys", "lindex", "llen", "lpop", "lpush", "lrange", "lrem", "lset",
    "ltrim", "persist", "pexpire", "pttl", "rename", "rpop", "rpush", "sadd", "scard", "sdiff", "setrange", "sinter", "sismember",
    "smembers", "spop", "srandmember", "srem", "stream_create_consumer_group", "strlen", "sunion", "ttl", "xadd", "xadd_with_id",
-   "xdel", "xlen", "xrange", "xread", "xrevrange", "xtrim", "zadd", "zcard", "zincrby", "zrange", "zrangebyscore", "zrank",
+   "xdel", "xlen", "xrange", "xread", "xrevrange", "xtrim", "zadd", "zcard", "zcount", "zincrby", "zrange", "zrangebyscore", "zrank",
    "zrem", "zscore"]
 
 /-- TABLE: every storage function that looks at `data` without testing the stored deadline is on the confirmed list. -/
